@@ -149,21 +149,21 @@ Proof. intros; unfold blen, zlen; lia. Qed.
 
 (* the dict constructor on a dict whose arrays are all fresh w.r.t. `base` *)
 Lemma ctor_dict_spec : forall s d keep conv exc copy base,
-  NoDup (vals d) -> (base <= length s)%nat ->
+  NoDup (vals d) -> NoDup (keys d) -> (base <= length s)%nat ->
   (forall l, In l (vals d) -> (l < length s)%nat /\ (base <= l)%nat) ->
   match ctor_dict s d keep conv exc copy with
   | (s', Some o', x) => exists ext, s' = s ++ ext /\ obj_inv s' o' /\ (forall l, In l (obj_locs o') -> (base <= l)%nat)
   | (s', None, x) => exists ext, s' = s ++ ext
   end.
 Proof.
-  intros s d keep conv exc copy base NV Hb Hd; unfold ctor_dict.
+  intros s d keep conv exc copy base NV NK Hb Hd; unfold ctor_dict.
   destruct (dict_length s d) as [n|] eqn:DL; [|exists []; rewrite app_nil_r; reflexivity].
   assert (Hn : 0 <= n).
   { unfold dict_length in DL. destruct (dict_nonempty (zlen d)); [|inversion DL; lia].
     destruct d as [|[k l] r]; [discriminate|]. destruct (rd s l); [|discriminate]. inversion DL; apply blen_nonneg. }
   assert (Hsrc : forall k l, In (k, l) d -> exists b, rd s l = Some b).
   { intros k l Hi; apply rd_Some_of_lt. apply (in_map snd) in Hi; apply Hd in Hi; tauto. }
-  pose proof (ctor_spec s d n keep conv exc copy base Hsrc NV Hb (fun _ l Hl => proj2 (Hd l Hl)) (fun _ _ => I)) as S.
+  pose proof (ctor_spec s d n keep conv exc copy base Hsrc NV NK Hb (fun _ l Hl => proj2 (Hd l Hl)) (fun _ _ => I)) as S.
   destruct (ctor s d n keep conv exc copy) as [[s' [o'|]] x].
   - destruct S as (_ & ext & S1 & S2 & S3 & S4 & _). exists ext; splits; auto.
   - destruct S as (_ & ext & S1); exists ext; assumption.
@@ -184,7 +184,7 @@ Lemma ctor_from_spec : forall s E a keep conv exc, repr s E a -> eqlen E a ->
         /\ (forall l, In l (obj_locs o') -> (length s <= l)%nat)
         /\ (forall k l', In (k, l') (fields o') -> col_from s (fields a) (olen a) conv exc s' k l')
         /\ (forall k, In k (keys (fields o')) -> In k (keys (fields a)) /\ match keep with Some kp => mem k kp = true | None => True end)
-        /\ oidx o' = None
+        /\ oidx o' = None /\ keys (fields o') = filter (keepb keep) (keys (fields a))
   | (s', None, x) => x <> Done /\ exists ext, s' = s ++ ext
   end.
 Proof.
@@ -194,6 +194,7 @@ Proof.
   pose proof (r_locs _ _ _ R) as ND; unfold obj_locs in ND; apply NoDup_app_l in ND.
   apply (ctor_spec s (fields a) (olen a) keep conv exc true (length s)); auto.
   - intros n l Hi; exists (E n); apply (r_cols _ _ _ R); assumption.
+  - apply R.
   - intros; discriminate.
 Qed.
 
@@ -287,7 +288,7 @@ Proof.
   destruct (sloop (sel_one sl a) (fnl a) (s, [])) as [[s1 d] x].
   destruct S as (ext & S1 & S2 & S3 & S4 & S5 & S6).
   destruct x; try (exists ext; assumption).
-  pose proof (ctor_dict_spec s1 d None [] [] false (length s) S3) as C.
+  pose proof (ctor_dict_spec s1 d None [] [] false (length s) S3 S2) as C.
   assert (Hb : (length s <= length s1)%nat) by (subst s1; rewrite app_length; lia).
   specialize (C Hb S4).
   destruct (ctor_dict s1 d None [] [] false) as [[s2 [o'|]] x2].
@@ -333,7 +334,7 @@ Proof.
     assert (Hd : forall l, In l (vals d) -> (l < length s1)%nat /\ (length (wstore w) <= l)%nat).
     { intros l Hl; destruct (A4 l Hl) as [Q1 [[]|Q2]]; split; assumption. }
     assert (Hb : (length (wstore w) <= length s1)%nat) by (subst s1; rewrite app_length; lia).
-    pose proof (ctor_dict_spec s1 d keep conv exc copy (length (wstore w)) A3 Hb Hd) as C.
+    pose proof (ctor_dict_spec s1 d keep conv exc copy (length (wstore w)) A3 A2 Hb Hd) as C.
     destruct (ctor_dict s1 d keep conv exc copy) as [[s2 [o'|]] x]; cbn [new_obj fst].
     + destruct C as (e2 & C1 & C2 & C3). subst s2 s1. rewrite <- app_assoc in *. apply push_inv; assumption.
     + destruct C as (e2 & C1). subst s2 s1. rewrite <- app_assoc. apply Ext.
